@@ -349,7 +349,9 @@ def check_convert_value(val: str, char: Characteristic) -> Any:
     if char.format in NUMBER_TYPES:
         try:
             val = Decimal(val)
-        except ValueError:
+        except (ValueError, TypeError, ArithmeticError):
+            raise FormatError(f'"{val}" is no valid "{char.format}"!')
+        if not val.is_finite():
             raise FormatError(f'"{val}" is no valid "{char.format}"!')
 
         if char.minValue is not None:
@@ -363,7 +365,10 @@ def check_convert_value(val: str, char: Characteristic) -> Any:
         # See https://github.com/home-assistant/core/issues/37083
         if char.minStep:
             with localcontext() as ctx:
-                ctx.prec = 6
+                if char.format not in INTEGER_TYPES:
+                    # Only fractional values are limited to 6 significant digits,
+                    # integer formats (up to 64 bit) must stay exact
+                    ctx.prec = 6
 
                 # Python3 uses bankers rounding by default, so 28.5 rounds to 28, not 29.
                 # This is surprising for most people
